@@ -9,74 +9,6 @@ open Lzma Rc Ring LazyDec Spec Lzma2
 
 def FE : Status := .err "fuel exhausted"
 
-theorem bstep_grow (d d' : DecSt) (o : RawOp) (hl : OpLenOk o) (h : bstep d o = .cont d') :
-    d.h.out.size + 1 ≤ d'.h.out.size ∧ d'.rd = d.rd := by
-  have hc : ∀ dist len, 1 ≤ len → d.copy dist len = .cont d' → d.h.out.size + 1 ≤ d'.h.out.size ∧ d'.rd = d.rd := by
-    intro dist len h1 hc
-    unfold DecSt.copy at hc
-    split_ifs at hc
-    cases hc
-    have := congrArg List.length (copyMatch_toList dist len d.h).1
-    rw [copyMatchList_length, length_toList, length_toList] at this
-    exact ⟨by simp only; omega, rfl⟩
-  cases o with
-  | lit b =>
-    cases h
-    exact ⟨by simp only [Hist.push, ByteArray.size_push]; omega, rfl⟩
-  | mtch len dd => exact hc _ _ (by have := hl.1; omega) h
-  | rep g len => exact hc _ _ (by have := hl.1; omega) h
-  | shortRep => exact hc _ _ (by omega) h
-
-theorem bstep_fail (d d' : DecSt) (o : RawOp) (st : Status) (h : bstep d o = .fail d' st) :
-    st = .err "distance out of range" ∧ d' = d := by
-  have hc : ∀ dist len, d.copy dist len = .fail d' st → st = .err "distance out of range" ∧ d' = d := by
-    intro dist len hc
-    unfold DecSt.copy at hc
-    split_ifs at hc
-    cases hc
-    exact ⟨rfl, rfl⟩
-  cases o with
-  | lit b => cases h
-  | mtch len dd => exact hc _ _ h
-  | rep g len => exact hc _ _ h
-  | shortRep => exact hc _ _ h
-
-/-- what one batch step can do -/
-theorem decStep_cases (p : Props) (d : DecSt) :
-    (∃ d', decStep p d = .fail d' .unexpectedEOF ∧ d'.h = d.h ∧ d'.rd.inp.length ≤ d.rd.inp.length) ∨
-    (∃ d', decStep p d = .fail d' (.err "distance out of range") ∧ d'.h = d.h ∧ d'.rd.inp.length ≤ d.rd.inp.length) ∨
-    (∃ d', decStep p d = .marker d' ∧ d'.h = d.h ∧ d'.rd.inp.length ≤ d.rd.inp.length) ∨
-    (∃ d', decStep p d = .cont d' ∧ d.h.out.size + 1 ≤ d'.h.out.size ∧ d'.rd.inp.length ≤ d.rd.inp.length) := by
-  cases hres : decTree pm (opDec (mkCtx p d.s d.h)) d.tbl d.rd with
-  | none =>
-    obtain ⟨s, tbl, rd, hh, ops⟩ := d
-    simp only at hres
-    left
-    refine ⟨{ s := s, tbl := #[], rd := { range := 0, code := 0, inp := [] }, h := hh, ops := ops },
-      by simp only [decStep, hres], rfl, ?_⟩
-    simp
-  | some x =>
-    obtain ⟨o, tbl', rd'⟩ := x
-    have hlen := opDec_len _ _ _ _ _ _ hres
-    have hrd := decTree_inp_le _ _ _ _ _ _ hres
-    have hd := decStep_some d o tbl' rd' hres
-    by_cases hm : isMarker o = true
-    · rw [if_pos hm] at hd
-      exact Or.inr (Or.inr (Or.inl ⟨_, hd, rfl, hrd⟩))
-    · rw [if_neg hm] at hd
-      cases hb : bstep (dAfter d o tbl' rd') o with
-      | cont d' =>
-        obtain ⟨g1, g2⟩ := bstep_grow _ _ _ hlen hb
-        rw [hb] at hd
-        exact Or.inr (Or.inr (Or.inr ⟨d', hd, g1, by rw [g2]; exact hrd⟩))
-      | marker d' =>
-        exfalso
-        cases o <;> simp [bstep, DecSt.copy] at hb <;> split_ifs at hb
-      | fail d' st =>
-        obtain ⟨g1, g2⟩ := bstep_fail _ _ _ _ hb
-        rw [hb, g1, g2] at hd
-        exact Or.inr (Or.inl ⟨_, hd, rfl, hrd⟩)
-
 theorem finish_props (p : Props) (d : DecSt) :
     (decSegment.finish p false d).status ≠ FE ∧
     (decSegment.finish p false d).d.rd.inp.length ≤ d.rd.inp.length := by
